@@ -2,7 +2,7 @@
    bool, option, unit, list, prod, sumbool, sumor are mapped to OCaml's; Z, positive, nat, ascii stay inductive. *)
 Require Extraction.
 Require Import ExtrOcamlBasic.
-From CF Require Import ListAux Defs Burn Core Cert Machines Config GreedyModel.
+From CF Require Import ListAux Defs Burn Core Cert Machines Config GreedyModel Txt.
 Extraction Language OCaml.
 Extraction "model.ml"
   nv mult Vg wfb valg nedges_g genus_g degD graph_eqb div_eqb connected_b
@@ -18,4 +18,5 @@ Extraction "model.ml"
   lap_entry lap_matrix lap_reduced lap_apply scripted_moves
   is_legal_set_firing legal_b superstable_enum out_degree_S cfg_le cfg_eq cfg_lt is_parking_n is_parking generate_parking parking_count det count_superstables
   greedy greedy_budget
+  read_graph read_divisor read_script read_orientation write_graph write_divisor write_script write_orientation name_ok py_int print_Z strip
   oinit oconstruct set_orientation check_fullness o_divisor o_reverse o_get dir_at full_b.
